@@ -229,6 +229,11 @@ def hp_rel(r, a, b):
     return {"lt": a < b, "gt": a > b, "le": a <= b, "ge": a >= b, "eq": a == b, "ne": a != b}[r]
 
 
+def _bare(e) -> bool:
+    """a variable, a literal or a negated literal"""
+    return e[0] in ("var", "num", "int") or (e[0] == "neg" and e[1][0] in ("num", "int"))
+
+
 class HP:
     """Reference evaluator: `eval` of the Lean model instantiated at 50-digit reals.
     With `noise` (a `random.Random`) every literal and every primitive result is
@@ -301,7 +306,16 @@ class HP:
                 self.unstable = self.unstable or e[1] == "sign"
             return r(hp_fn(e[1], a))
         if tag == "rel":
-            a, b = self.ev(e[2], env), self.ev(e[3], env)
+            if _bare(e[2]) and _bare(e[3]):
+                # an input compared with a literal or another input: both sides are exact doubles in every
+                # faithful implementation, so the comparison is exact too (Ge vs Gt differ only here)
+                keep, self.noise = self.noise, None
+                try:
+                    a, b = self.ev(e[2], env), self.ev(e[3], env)
+                finally:
+                    self.noise = keep
+            else:
+                a, b = self.ev(e[2], env), self.ev(e[3], env)
             if _fin(a) and _fin(b) and a != b and abs(a - b) <= mpf("1e-25") * (abs(a) + abs(b)):
                 self.unstable = True   # equal up to the working precision only: the comparison is meaningless
             return mpf(1) if hp_rel(e[1], a, b) else mpf(0)
